@@ -78,6 +78,22 @@ func runGen(repo, outDir string) error {
 	sb.WriteString("].\n")
 	must(os.WriteFile(filepath.Join(outDir, "Targets.v"), []byte(sb.String()), 0o644))
 
+	// Ambient.v: reads of anything but the arguments (clock, randomness, environment, host, build information)
+	sb.Reset()
+	sb.WriteString("(* GENERATED from /repo/pkg/codegen by harness/scan.go on every run. Do not edit. *)\n")
+	sb.WriteString("From Coq Require Import List String.\nImport ListNotations.\nLocal Open Scope string_scope.\n\n")
+	sb.WriteString("(* enclosing function, callee *)\nDefinition ambient_reads : list (string * string) := [\n")
+	ac := s.ambientCalls()
+	for i, a := range ac {
+		sep := ";"
+		if i == len(ac)-1 {
+			sep = ""
+		}
+		fmt.Fprintf(&sb, "  (%s, %s)%s\n", coqLitStr(a[0]), coqLitStr(a[1]), sep)
+	}
+	sb.WriteString("].\n")
+	must(os.WriteFile(filepath.Join(outDir, "Ambient.v"), []byte(sb.String()), 0o644))
+
 	// VisitOrder.v: the writer operations of every Visit function of strict-interface.tmpl, in textual order
 	vs, err := scanVisitOrder(repo)
 	if err != nil {
